@@ -229,4 +229,103 @@ theorem mergeSort_eq_of_sorted_perm (d t : Offsets) (hp : d.Perm t) (hs : t.Pair
   · exact hs
   · exact (List.mergeSort_perm d pairLe).trans hp
 
+/-! ### `best` picks the largest recoverable verinfo -/
+
+theorem vlt_irrefl (a : VerInfo) : vlt a a = false := by
+  simp [vlt]
+
+theorem vlt_trichotomy (a b : VerInfo) (h1 : vlt a b = false) (h2 : vlt b a = false) : a = b := by
+  obtain ⟨a1, a2, a3, a4⟩ := a
+  obtain ⟨b1, b2, b3, b4⟩ := b
+  simp only [vlt, Bool.or_eq_false_iff, decide_eq_false_iff_not, Bool.and_eq_false_imp, beq_iff_eq, Nat.not_lt] at h1 h2
+  have e1 : a1 = b1 := by omega
+  subst e1
+  have h1' := h1.2 rfl
+  have h2' := h2.2 rfl
+  have e2 : a2 = b2 := by omega
+  subst e2
+  have h1'' := h1'.2 rfl
+  have h2'' := h2'.2 rfl
+  have e3 : a3 = b3 := by omega
+  subst e3
+  have := h1''.2 rfl
+  have := h2''.2 rfl
+  have e4 : a4 = b4 := by omega
+  subst e4
+  rfl
+
+/-- the fold inside `best`, with the recoverability test as a parameter -/
+def bestStep (rec : VerInfo → Bool) (acc : Option VerInfo) (s : MShare) : Option VerInfo :=
+  if rec s.verinfo then
+    match acc with
+    | none => some s.verinfo
+    | some b => if vlt b s.verinfo then some s.verinfo else some b
+  else acc
+
+theorem best_eq_foldl (k : Nat) (m : List MShare) : best k m = m.foldl (bestStep (recoverable k m)) none := rfl
+
+theorem bestStep_keeps_max (rec : VerInfo → Bool) (v : VerInfo) (l : List MShare)
+    (hmax : ∀ s, s ∈ l → rec s.verinfo = true → vlt v s.verinfo = false) :
+    l.foldl (bestStep rec) (some v) = some v := by
+  induction l with
+  | nil => rfl
+  | cons s rest ih =>
+    simp only [List.foldl_cons]
+    have hstep : bestStep rec (some v) s = some v := by
+      unfold bestStep
+      split
+      · rename_i hr
+        simp [hmax s List.mem_cons_self hr]
+      · rfl
+    rw [hstep]
+    exact ih (fun t ht => hmax t (List.mem_cons_of_mem _ ht))
+
+theorem bestStep_finds_max (rec : VerInfo → Bool) (v : VerInfo) (hv : rec v = true) (l : List MShare)
+    (hmem : ∃ s, s ∈ l ∧ s.verinfo = v)
+    (hmax : ∀ s, s ∈ l → rec s.verinfo = true → vlt v s.verinfo = false) :
+    ∀ acc : Option VerInfo, (acc = none ∨ ∃ b, acc = some b ∧ vlt v b = false) →
+      l.foldl (bestStep rec) acc = some v := by
+  induction l with
+  | nil => obtain ⟨s, hs, _⟩ := hmem; simp at hs
+  | cons s rest ih =>
+    intro acc hacc
+    simp only [List.foldl_cons]
+    have hmax' : ∀ t, t ∈ rest → rec t.verinfo = true → vlt v t.verinfo = false :=
+      fun t ht => hmax t (List.mem_cons_of_mem _ ht)
+    by_cases hsv : s.verinfo = v
+    · -- this share carries v: the accumulator becomes v and stays
+      have hstep : bestStep rec acc s = some v := by
+        unfold bestStep
+        rw [hsv, hv]
+        simp only [if_true]
+        rcases hacc with h | ⟨b, h, hb⟩
+        · rw [h]
+        · rw [h]
+          simp only
+          split
+          · rfl
+          · rename_i hlt
+            have : vlt b v = false := by simpa using hlt
+            rw [vlt_trichotomy v b hb this]
+      rw [hstep]
+      exact bestStep_keeps_max rec v rest hmax'
+    · have hmem' : ∃ t, t ∈ rest ∧ t.verinfo = v := by
+        obtain ⟨t, ht, htv⟩ := hmem
+        rcases List.mem_cons.1 ht with h | h
+        · subst h; exact absurd htv hsv
+        · exact ⟨t, h, htv⟩
+      apply ih hmem' hmax'
+      unfold bestStep
+      split
+      · rename_i hr
+        have hle := hmax s List.mem_cons_self hr
+        rcases hacc with h | ⟨b, h, hb⟩
+        · rw [h]; exact Or.inr ⟨_, rfl, hle⟩
+        · rw [h]
+          simp only
+          split
+          · exact Or.inr ⟨_, rfl, hle⟩
+          · exact Or.inr ⟨b, rfl, hb⟩
+      · exact hacc
+
 end Tahoe.RetrSel
